@@ -647,7 +647,7 @@ impl Rt {
                 }
             }
             if let Some(qa) = hit {
-                st.api.push(json!({"e":"uaf","t":tid,"k":kind.name(),"blk":qa}));
+                st.api.push(json!({"e":"uaf","t":tid,"k":kind.name(),"blk":(qa & 0x3fff_ffff)}));
             }
         }
         if st.record_ops {
@@ -720,11 +720,11 @@ impl vh::Runtime for Rt {
         let mut st = self.lock();
         let known = st.allocs.remove(&addr);
         if known.is_none() && st.active && !st.abort {
-            st.api.push(json!({"e":"badfree","blk":addr}));
+            st.api.push(json!({"e":"badfree","blk":(addr & 0x3fff_ffff)}));
         }
         if st.quarantine_on && !st.abort {
             if st.quarantine.iter().any(|q| q.0 == addr) {
-                st.api.push(json!({"e":"doublefree","blk":addr}));
+                st.api.push(json!({"e":"doublefree","blk":(addr & 0x3fff_ffff)}));
                 return true;
             }
             st.quarantine.push((addr, bytes, align));
